@@ -19,18 +19,46 @@ JOB = {'out': ['raise'], 'critical': [True], 'dur': [0, 2, 3, 'never'],
 SCH = {'critical': [True], 'timeout': [0, 1, 2, 3], 'k': ['nest']}
 
 
+TOPS = [[], [('top', 'k', 'nest')],
+        [('top', 'k', 'nest'), ('top', 'critical', True)]]
+
+
 def items(tier, seed):
     th = tier == 'thorough'
+    # every assignment return / raise / critical raise to the jobs, under
+    # each kind of top scheduler, with and without a timeout
+    yield from spaces.mk(
+        ['flat23'], force='product',
+        fargs={'parts': [
+            ('outcomes', {}),
+            ('mods', {'alts': TOPS}),
+            ('mods', {'alts': [[], [('top', 'timeout', 1)],
+                               [('top', 'timeout', 2)]]})]},
+        job_open={'dur': [0, 2, 'never'] if th else [0, 2],
+                  'forever': [True]},
+        top_open={'window': [1]} if th else {}, nest_open={},
+        extra=_base.X_THASH, k=2 if th else 1, bound=3 if th else 2)
     # every position of a timeout relative to completions, critical raises
     yield from spaces.mk(
         ['flat123'], force='mods',
-        fargs={'alts': [[], [('top', 'timeout', 0)], [('top', 'timeout', 1)],
+        fargs={'alts': [[('top', 'timeout', 0)], [('top', 'timeout', 1)],
                         [('top', 'timeout', 2)], [('top', 'timeout', 3)]]},
-        job_open=JOB, top_open={'k': ['nest'], 'critical': [True],
-                                'window': [1]},
-        nest_open={}, extra=_base.X_THASH, k=3 if th else 2,
+        job_open=JOB if th else {'out': ['raise'], 'critical': [True],
+                                 'dur': [0, 2, 'never']},
+        top_open={'k': ['nest'], 'critical': [True], 'window': [1]},
+        nest_open={}, extra=_base.X_THASH if th else [], k=3 if th else 2,
         bound=3 if th else 2)
-    # nesting: all critical combinations along the chain come from k
+    # nesting: a critical and a non-critical raise inside the nested
+    # scheduler, all critical combinations along the chain
+    yield from spaces.mk(
+        ['nest22', 'nest23'] if th else ['nest22'], force='product',
+        fargs={'parts': [
+            ('outcomes', {'where': 'n'}),
+            ('mods', {'alts': [[], [('n', 'critical', True)]]}),
+            ('mods', {'alts': TOPS})]},
+        job_open={'dur': [0, 2]},
+        top_open={'timeout': [1, 2]}, nest_open={'timeout': [0, 1, 2]},
+        k=2 if th else 1, bound=2)
     yield from spaces.mk(
         ['nest21', 'nest22'], force='each_job',
         fargs={'mods': [('out', 'raise'), ('critical', True)]},
@@ -39,7 +67,7 @@ def items(tier, seed):
         nest_open={'critical': [True], 'timeout': [0, 1, 2]},
         k=3 if th else 2, bound=2)
     yield from spaces.mk(
-        ['nest21', 'nest22', 'nest32'], force='none',
+        ['nest21', 'nest22'] + (['nest32'] if th else []), force='none',
         job_open={'dur': [0, 2, 'never'], 'out': ['raise'],
                   'critical': [True]},
         top_open={'k': ['nest'], 'critical': [True], 'timeout': [0, 1, 2, 3]},
@@ -47,9 +75,17 @@ def items(tier, seed):
                    'forever': [True]},
         k=2 if th else 1, bound=2)
     yield from spaces.mk(
+        ['nest32'], force='mods',
+        fargs={'alts': [[('n', 'critical', True)],
+                        [('n', 'critical', True), ('top', 'k', 'nest'),
+                         ('top', 'critical', True)]]},
+        job_open={'out': ['raise'], 'critical': [True]},
+        top_open={}, nest_open={'timeout': [1]},
+        k=3 if th else 2, bound=2)
+    yield from spaces.mk(
         ['deep3'], force='each_job',
         fargs={'mods': [('out', 'raise'), ('critical', True)]},
-        job_open={'dur': [2]},
+        job_open={'dur': [2], 'out': ['raise']},
         top_open={'k': ['nest'], 'critical': [True], 'timeout': [1, 2]},
         nest_open={'critical': [True], 'timeout': [0, 1, 2]},
         k=3 if th else 2, bound=2)
